@@ -82,7 +82,7 @@ def generate(seed, idx, tier):
         call = corpus.gen_call(rng, tok, cid='w', kinds=KINDS, invalid_p=0.25)
         plan = {}
         _k = call['kind']
-        if _k == 'build' and any(st[0] in ('copy_field',) for st in call.get('steps', [])):
+        if _k == 'build' and any(st[0] in ('copy_field', 'attach_touched') for st in call.get('steps', [])):
             _k = None      # a copy from a parent-less segment serialises that segment with the defaults
         mode = rng.random()
         if mode < 0.30:
